@@ -99,8 +99,6 @@ Proof.
         (conj (Vec2_radd_is_add at2 a a') (conj (Vec3_radd_is_add at2 b b')
         (Vec4_radd_is_add at2 c c')))))).
 Qed.
-Print Assumptions C18_vec4_arith.
-Print Assumptions C18_mat4_arith.
 
 (* ---- 2. dot, cross, lerp, scale, distance, abs, clamp ------------------ *)
 Theorem C18_dot : forall (a a' : V2 R) (b b' : V3 R) (c c' : V4 R),
@@ -168,8 +166,6 @@ Proof.
   exact (conj (Vec2_clamp_ok at2 a lo hi) (conj (Vec3_clamp_ok at2 b lo hi)
         (Vec4_clamp_ok at2 c lo hi))).
 Qed.
-Print Assumptions C18_cross.
-Print Assumptions C18_vec_clamp.
 
 (* ---- 3. matrix products ------------------------------------------------ *)
 (* A @ B is the row-by-column product of the grids the values are written in *)
@@ -224,9 +220,6 @@ Theorem C18_transpose : forall A : V16 R,
   (forall i j, (i < 4)%nat -> (j < 4)%nat -> m4 (Mat4_transpose A) i j = m4 A j i) /\
   Mat4_transpose (Mat4_transpose A) = A.
 Proof. intros A. exact (conj (Mat4_transpose_ok at2 A) (Mat4_transpose_involutive at2 A)). Qed.
-Print Assumptions C18_matmul.
-Print Assumptions C18_matmul_assoc.
-Print Assumptions C18_transpose.
 
 (* ---- 4. the inverse ----------------------------------------------------- *)
 (* det is the Laplace expansion of Math/Spec.v *)
@@ -244,8 +237,6 @@ Proof. intros A. exact (proj1 (Mat4_invert_warns at2 A)). Qed.
 Theorem C18_det2_written_out : forall A : mat,
   det 2 A = A 0%nat 0%nat * A 1%nat 1%nat - A 0%nat 1%nat * A 1%nat 0%nat.
 Proof. exact (det2_unfolded at2). Qed.
-Print Assumptions C18_inverse.
-Print Assumptions C18_inverse_singular.
 
 (* ---- 5. normalize, from_magnitude, limit -------------------------------- *)
 Theorem C18_normalize_unit : forall (a : V2 R) (b : V3 R) (c : V4 R),
@@ -295,9 +286,6 @@ Proof.
   exact (conj (Vec2_limit_le at2 a m Hm) (conj (Vec2_limit_short at2 a m Hm)
         (conj (Vec3_limit_le at2 b m Hm) (Vec3_limit_short at2 b m Hm)))).
 Qed.
-Print Assumptions C18_normalize_unit.
-Print Assumptions C18_from_magnitude.
-Print Assumptions C18_limit.
 
 (* ---- 6. angles ----------------------------------------------------------- *)
 (* from_polar m h = m (cos h, sin h); from_heading keeps |v| and sets the
@@ -322,8 +310,6 @@ Theorem C18_rotate : polar at2 -> forall (a : V2 R) (phi : R),
   Vec2_rotate a phi = (cos phi * v2 a 0%nat - sin phi * v2 a 1%nat,
                        sin phi * v2 a 0%nat + cos phi * v2 a 1%nat).
 Proof. exact (Vec2_rotate_ok at2). Qed.
-Print Assumptions C18_from_heading.
-Print Assumptions C18_rotate.
 
 (* ---- 7. the stated transforms -------------------------------------------- *)
 Theorem C18_from_translation : forall (t : V3 R) (x y z : R),
@@ -360,10 +346,181 @@ Theorem C18_orthogonal_projection_affine :
     Mat4_matmul_v (Mat4_orthogonal_projection l r b t n f) (x, y, z, 1)
     = (2 * (x - l) / (r - l) - 1, 2 * (y - b) / (t - b) - 1, 2 * (- z - n) / (f - n) - 1, 1).
 Proof. exact (Mat4_orthogonal_projection_acts at2). Qed.
-Print Assumptions C18_translate.
-Print Assumptions C18_orthogonal_projection.
+
+(* ---- 9. second round: rows, columns, scale, rotations, perspective, look_at,
+        the Mat3 transforms, rounding ------------------------------------------ *)
+Theorem C18_rows_columns : forall (A : V16 R) k, (k < 4)%nat ->
+  v4 (Mat4_row_0 A) k = m4 A 0%nat k /\ v4 (Mat4_row_1 A) k = m4 A 1%nat k /\
+  v4 (Mat4_row_2 A) k = m4 A 2%nat k /\ v4 (Mat4_row_3 A) k = m4 A 3%nat k /\
+  v4 (Mat4_column_0 A) k = m4 A k 0%nat /\ v4 (Mat4_column_1 A) k = m4 A k 1%nat /\
+  v4 (Mat4_column_2 A) k = m4 A k 2%nat /\ v4 (Mat4_column_3 A) k = m4 A k 3%nat.
+Proof.
+  intros A k Hk.
+  exact (conj (Mat4_row_0_ok at2 A k Hk) (conj (Mat4_row_1_ok at2 A k Hk)
+        (conj (Mat4_row_2_ok at2 A k Hk) (conj (Mat4_row_3_ok at2 A k Hk)
+        (conj (Mat4_column_0_ok at2 A k Hk) (conj (Mat4_column_1_ok at2 A k Hk)
+        (conj (Mat4_column_2_ok at2 A k Hk) (Mat4_column_3_ok at2 A k Hk)))))))).
+Qed.
+(* Mat4.scale multiplies the diagonal entries (0,0), (1,1), (2,2) by the
+   components; this is A @ from_scale(s) when the other entries of the first
+   three columns are zero (NOT in general: a translation row is left unscaled) *)
+Theorem C18_mat4_scale : forall (A : V16 R) (s : V3 R),
+  (forall i j, (i < 4)%nat -> (j < 4)%nat ->
+     m4 (Mat4_scale A s) i j
+     = if Nat.eqb i j && Nat.ltb i 3 then m4 A i j * v3 s i else m4 A i j) /\
+  ((forall i j, (i < 4)%nat -> (j < 3)%nat -> i <> j -> m4 A i j = 0) ->
+   Mat4_scale A s = Mat4_matmul_m A (Mat4_from_scale s)).
+Proof. intros A s. exact (conj (Mat4_scale_ok at2 A s) (Mat4_scale_is_product at2 A s)). Qed.
+(* rotate / from_rotation: the Rodrigues rotation about the axis u by th;
+   a point p goes to cos p + sin (u x p) + (1 - cos)(u . p) u *)
+Theorem C18_rotation : forall (A : V16 R) (th : R) (u : V3 R) (x y z : R),
+  (forall i j, (i < 4)%nat -> (j < 4)%nat ->
+     m4 (Mat4_from_rotation th u) i j = rodrigues_grid (cos th) (sin th) (v3 u) i j) /\
+  Mat4_rotate A th u = Mat4_matmul_m A (Mat4_from_rotation th u) /\
+  Mat4_matmul_v (Mat4_from_rotation th u) (x, y, z, 1)
+  = (rodrigues (cos th) (sin th) (v3 u) (vecof [x; y; z]) 0%nat,
+     rodrigues (cos th) (sin th) (v3 u) (vecof [x; y; z]) 1%nat,
+     rodrigues (cos th) (sin th) (v3 u) (vecof [x; y; z]) 2%nat, 1).
+Proof.
+  intros A th u x y z.
+  exact (conj (Mat4_from_rotation_ok at2 th u) (conj (Mat4_rotate_is_product at2 A th u)
+        (Mat4_from_rotation_acts at2 th u x y z))).
+Qed.
+(* for a unit axis it is a proper rotation that fixes the axis *)
+Theorem C18_rotation_unit_axis : forall (th : R) (x y z : R), x * x + y * y + z * z = 1 ->
+  let G := Mat4_from_rotation th (x, y, z) in
+  Mat4_matmul_m G (Mat4_transpose G) = Mat4_new /\ det 4 (m4 G) = 1 /\
+  Mat4_matmul_v G (x, y, z, 1) = (x, y, z, 1).
+Proof.
+  intros th x y z H G.
+  assert (H' : dot 3 (v3 (x, y, z)) (v3 (x, y, z)) = 1)
+    by (rewrite (dot3_unfolded at2); exact H).
+  exact (conj (Mat4_from_rotation_orthogonal at2 th (x, y, z) H')
+        (conj (Mat4_from_rotation_det at2 th (x, y, z) H')
+              (Mat4_from_rotation_axis at2 th x y z H))).
+Qed.
+(* the assert of the code is exactly: the entries of the axis lie in [-1, 1] *)
+Theorem C18_rotation_precondition : forall (A : V16 R) (th : R) (u : V3 R),
+  Mat4_rotate_p A th u = true <-> (forall i, (i < 3)%nat -> Rabs (v3 u i) <= 1).
+Proof. exact (Mat4_rotate_pre at2). Qed.
+(* perspective_projection: the standard frustum matrix (row vectors), with
+   f = 1 / tan(fov/2), fov in degrees, aspect = (right-left)/(top-bottom) *)
+Theorem C18_perspective : forall l r b t n f fov : R,
+  l <> r -> b <> t -> n <> f -> n <> 0 -> tan (fov * PI / 360) <> 0 ->
+  (forall i j, (i < 4)%nat -> (j < 4)%nat ->
+     m4 (Mat4_perspective_projection l r b t n f fov) i j
+     = perspective_grid (1 / tan (fov * PI / 360)) ((r - l) / (t - b)) n f i j) /\
+  (let h := n * tan (fov * PI / 360) in
+   let a := (r - l) / (t - b) in
+   Mat4_matmul_v (Mat4_perspective_projection l r b t n f fov) (a * h, h, - n, 1) = (n, n, - n, n)
+   /\ Mat4_matmul_v (Mat4_perspective_projection l r b t n f fov)
+                    (a * h * f / n, h * f / n, - f, 1) = (f, f, f, f)).
+Proof.
+  intros l r b t n f fov H1 H2 H3 H4 H5.
+  exact (conj (Mat4_perspective_projection_ok at2 l r b t n f fov H1 H2 H3 H4 H5)
+              (Mat4_perspective_projection_corners at2 l r b t n f fov H1 H2 H3 H4 H5)).
+Qed.
+Theorem C18_perspective_default_fov : forall l r b t n f : R,
+  Mat4_perspective_projection_fov60 l r b t n f = Mat4_perspective_projection l r b t n f 60.
+Proof. exact (Mat4_perspective_projection_default at2). Qed.
+(* look_at: the view matrix of the frame f = (target - position)^, s = f x up^,
+   u = s x f at position; position goes to the origin, the target onto the
+   negative z axis at its distance *)
+Theorem C18_look_at : forall p t up : V3 R, t <> p -> up <> (0, 0, 0) ->
+  (forall i j, (i < 4)%nat -> (j < 4)%nat ->
+     m4 (Mat4_look_at p t up) i j = lookat_grid (v3 p) (v3 t) (v3 up) i j) /\
+  Mat4_matmul_v (Mat4_look_at p t up) (v3 p 0%nat, v3 p 1%nat, v3 p 2%nat, 1) = (0, 0, 0, 1) /\
+  Mat4_matmul_v (Mat4_look_at p t up) (v3 t 0%nat, v3 t 1%nat, v3 t 2%nat, 1)
+  = (0, 0, - norm 3 (vsub (v3 t) (v3 p)), 1).
+Proof.
+  intros p t up H1 H2.
+  exact (conj (Mat4_look_at_ok at2 p t up H1 H2) (conj (Mat4_look_at_position at2 p t up H1 H2)
+        (Mat4_look_at_target at2 p t up H1 H2))).
+Qed.
+(* the frame: f is a unit vector, s and u are orthogonal to it and to each
+   other; they are unit vectors when up is perpendicular to the direction (the
+   code does not renormalise s, so otherwise |s| = |u| < 1) *)
+Theorem C18_look_at_frame : forall p t up : vec,
+  0 < dot 3 (vsub t p) (vsub t p) -> 0 < dot 3 up up ->
+  let f := lookat_f p t in let s := lookat_s p t up in let u := lookat_u p t up in
+  dot 3 f f = 1 /\ dot 3 s f = 0 /\ dot 3 u f = 0 /\ dot 3 s u = 0 /\
+  dot 3 u u = dot 3 s s /\ (dot 3 (vsub t p) up = 0 -> dot 3 s s = 1).
+Proof. exact (lookat_frame at2). Qed.
+Theorem C18_view_matrix_acts : forall (s u f p q : vec) j, (j < 4)%nat ->
+  vecmat 4 (vecof [q 0%nat; q 1%nat; q 2%nat; 1]) (view_grid s u f p) j
+  = vecof [dot 3 (vsub q p) s; dot 3 (vsub q p) u; - dot 3 (vsub q p) f; 1] j.
+Proof. exact (view_grid_acts at2). Qed.
+(* the Mat3 transforms multiply with the matrices written in the code: scale
+   DIVIDES by its arguments, translate moves by (-tx, +ty), rotate takes degrees *)
+Theorem C18_mat3_transforms : forall (A : V9 R) (a b phi : R) i j, (i < 3)%nat -> (j < 3)%nat ->
+  m3 (Mat3_scale A a b) i j = mmul 3 (m3 A) (m3_scale a b) i j /\
+  m3 (Mat3_translate A a b) i j = mmul 3 (m3 A) (m3_translate a b) i j /\
+  m3 (Mat3_rotate A phi) i j
+  = mmul 3 (m3 A) (m3_rotate (cos (phi * PI / 180)) (sin (phi * PI / 180))) i j /\
+  m3 (Mat3_shear A a b) i j = mmul 3 (m3 A) (m3_shear a b) i j.
+Proof.
+  intros A a b phi i j Hi Hj.
+  exact (conj (Mat3_scale_ok at2 A a b i j Hi Hj) (conj (Mat3_translate_ok at2 A a b i j Hi Hj)
+        (conj (Mat3_rotate_ok at2 A phi i j Hi Hj) (Mat3_shear_ok at2 A a b i j Hi Hj)))).
+Qed.
+Theorem C18_mat3_transforms_act : forall x y a b phi : R, a <> 0 -> b <> 0 ->
+  Mat3_matmul_v (Mat3_scale Mat3_new a b) (x, y, 1) = (x / a, y / b, 1) /\
+  Mat3_matmul_v (Mat3_translate Mat3_new a b) (x, y, 1) = (x - a, y + b, 1) /\
+  Mat3_matmul_v (Mat3_rotate Mat3_new phi) (x, y, 1)
+  = (x * cos (phi * PI / 180) - y * sin (phi * PI / 180),
+     x * sin (phi * PI / 180) + y * cos (phi * PI / 180), 1) /\
+  Mat3_matmul_v (Mat3_shear Mat3_new a b) (x, y, 1) = (x + a * y, b * x + y, 1).
+Proof. exact (Mat3_transforms_act at2). Qed.
+(* __round__ rounds entry by entry; Rround x n = round-half-even of x 10^n,
+   divided by 10^n (Math/RInst.v), within half a unit of the last digit *)
+Theorem C18_round : forall (a : V2 R) (b : V3 R) (c : V4 R) (A : V9 R) (B : V16 R),
+  (forall i, (i < 2)%nat -> v2 (Vec2_round_n a) i = Rround (v2 a i) 0
+                            /\ v2 (Vec2_round_2 a) i = Rround (v2 a i) 2) /\
+  (forall i, (i < 3)%nat -> v3 (Vec3_round_n b) i = Rround (v3 b i) 0
+                            /\ v3 (Vec3_round_2 b) i = Rround (v3 b i) 2) /\
+  (forall i, (i < 4)%nat -> v4 (Vec4_round_n c) i = Rround (v4 c i) 0
+                            /\ v4 (Vec4_round_2 c) i = Rround (v4 c i) 2) /\
+  (forall i j, (i < 3)%nat -> (j < 3)%nat -> m3 (Mat3_round_n A) i j = Rround (m3 A i j) 0
+                            /\ m3 (Mat3_round_2 A) i j = Rround (m3 A i j) 2) /\
+  (forall i j, (i < 4)%nat -> (j < 4)%nat -> m4 (Mat4_round_n B) i j = Rround (m4 B i j) 0
+                            /\ m4 (Mat4_round_2 B) i j = Rround (m4 B i j) 2).
+Proof.
+  intros a b c A B.
+  exact (conj (fun i Hi => conj (Vec2_round_n_ok at2 a i Hi) (Vec2_round_2_ok at2 a i Hi))
+        (conj (fun i Hi => conj (Vec3_round_n_ok at2 b i Hi) (Vec3_round_2_ok at2 b i Hi))
+        (conj (fun i Hi => conj (Vec4_round_n_ok at2 c i Hi) (Vec4_round_2_ok at2 c i Hi))
+        (conj (fun i j Hi Hj => conj (Mat3_round_n_ok at2 A i j Hi Hj) (Mat3_round_2_ok at2 A i j Hi Hj))
+              (fun i j Hi Hj => conj (Mat4_round_n_ok at2 B i j Hi Hj)
+                                     (Mat4_round_2_ok at2 B i j Hi Hj)))))).
+Qed.
+Theorem C18_round_is_nearest : forall x : R, Rabs (IZR (Rround_int x) - x) <= 1 / 2.
+Proof. exact Rround_int_close. Qed.
 
 End C18.
+
+(* after closing the section every theorem above is quantified over at2 *)
+Print Assumptions C18_vec4_arith.
+Print Assumptions C18_mat4_arith.
+Print Assumptions C18_cross.
+Print Assumptions C18_vec_clamp.
+Print Assumptions C18_matmul.
+Print Assumptions C18_matmul_assoc.
+Print Assumptions C18_transpose.
+Print Assumptions C18_inverse.
+Print Assumptions C18_inverse_singular.
+Print Assumptions C18_normalize_unit.
+Print Assumptions C18_from_magnitude.
+Print Assumptions C18_limit.
+Print Assumptions C18_from_heading.
+Print Assumptions C18_rotate.
+Print Assumptions C18_translate.
+Print Assumptions C18_orthogonal_projection.
+Print Assumptions C18_rotation.
+Print Assumptions C18_rotation_unit_axis.
+Print Assumptions C18_perspective.
+Print Assumptions C18_look_at.
+Print Assumptions C18_look_at_frame.
+Print Assumptions C18_round.
 
 (* ---- 8. swizzling (hand-written model Math/Swizzle.v, tied to the classes
    by the exhaustive comparison of every run) --------------------------------- *)
